@@ -128,6 +128,11 @@ var c10pres = []c10pre{
 	{"directory", "out.go", func() { os.MkdirAll("out.go/sub", 0o755) }},
 	{"missing-parent", "nodir/out.go", func() {}},
 	{"same-as-input", "c.yaml", func() {}},
+	// output paths that cannot even be inspected: a regular file as parent, a name that is too long, a symbolic-link loop
+	{"parent-is-a-file", "blocker/out.go", func() { os.WriteFile("blocker", []byte("x"), 0o644) }},
+	{"name-too-long", strings.Repeat("n", 300) + ".go", func() {}},
+	{"symlink-loop", "loop/out.go", func() { os.Symlink("loop", "loop") }},
+	{"dangling-symlink-to-missing-directory", "out.go", func() { os.Symlink("nowhere/else.go", "out.go") }},
 }
 
 type pathState struct {
@@ -250,7 +255,7 @@ func init() {
 	Register(&Check{
 		ID:    "C10",
 		Level: "fault_enumeration",
-		Rule: "37 configuration / environment classes (valid, two files, file names with a comma / spaces / parentheses, YAML syntax error, YAML type errors whose message spans several lines (one file, nested, second file), shape error, grammar error(s), token errors (several; a single unexpected token in a parameter / in an argument), compile errors (must-getter without getter under default_must_getter, malformed @ / !value arguments), formatter error, missing parameter / service, cycle, scope, mixed output errors, version mismatch, file matched twice (the identical pattern repeated, glob repeated, three times, file + glob, ./ prefix, dirty path, glob + dirty path), missing input, only missing input, empty glob, invalid glob, input is a directory) x all 16 flag combinations (quiet, stub, ignore-missing-params, ignore-missing-services) x 5 output pre-states (absent, existing file with old mtime and 0600, directory, missing parent, same path as an input) " +
+		Rule: "37 configuration / environment classes (valid, two files, file names with a comma / spaces / parentheses, YAML syntax error, YAML type errors whose message spans several lines (one file, nested, second file), shape error, grammar error(s), token errors (several; a single unexpected token in a parameter / in an argument), compile errors (must-getter without getter under default_must_getter, malformed @ / !value arguments), formatter error, missing parameter / service, cycle, scope, mixed output errors, version mismatch, file matched twice (the identical pattern repeated, glob repeated, three times, file + glob, ./ prefix, dirty path, glob + dirty path), missing input, only missing input, empty glob, invalid glob, input is a directory) x all 16 flag combinations (quiet, stub, ignore-missing-params, ignore-missing-services) x 9 output pre-states (absent, existing file with old mtime and 0600, directory, missing parent, same path as an input, parent is a regular file, name of 300 bytes, symbolic-link loop, dangling symbolic link) " +
 			"x injected file-system answers at every os.ReadFile / os.WriteFile / filepath.Glob call of internal/cmd/runner (EACCES, EIO, ErrBadPattern): all executions with <= 1 injected answer (quick) / <= 2 (thorough); plus the real binary's exit status for one representative of every class. non-trivial = a failure class, a non-absent pre-state or an injected fault; distinct = distinct (class, flags, pre-state, fault plan)",
 		Assumptions: []string{
 			"file-system answers are injected with go build -overlay (os.ReadFile, os.WriteFile, filepath.Glob in internal/cmd/runner rewritten to a shim); a write that fails after truncation is outside the statement's fault list and not injected",
@@ -375,7 +380,7 @@ func init() {
 							// some classes are valid only without / with particular flags: the reference run decides
 							// the expected verdict of the fault-free runs; the class table only says which must fail
 							_, exit := c10run(c, id, cl, flags, pre, nil, reference)
-							wantFail := refExit != 0 || pre.id == "directory" || pre.id == "missing-parent"
+							wantFail := refExit != 0 || pre.id == "directory" || pre.id == "missing-parent" || pre.id == "parent-is-a-file" || pre.id == "name-too-long" || pre.id == "symlink-loop" || pre.id == "dangling-symlink-to-missing-directory"
 							if wantFail && exit == 0 {
 								c.Violation("unwritable-output-exit0:"+pre.id, "the -o path cannot be written ("+pre.id+") but the command exited 0 ("+id+")", nil, nil)
 							}
@@ -418,6 +423,58 @@ func init() {
 							explore(map[int]error{}, 0, refPoints, 0)
 							if cl.id == "valid-two-files" && fm == 0 && pre.id == "sentinel-file" {
 								c.Sample(map[string]any{"class": cl.id, "flags": flags, "pre_state": pre.id, "choice_points": refPoints})
+							}
+						})
+					}
+				}
+			}
+			// the report cannot be written (stdout is /dev/full, or closed): whatever happens, exit status 0 still means
+			// that the complete file is there
+			for _, cl := range classes[:2] {
+				for si, how := range []string{"/dev/full", "closed"} {
+					for _, quiet := range []bool{false, true} {
+						cl, si, how, quiet := cl, si, how, quiet
+						w.Case(fmt.Sprintf("stdout-unwritable/%s/%d/quiet=%v", cl.id, si, quiet), func(c *C) {
+							dir := w.FreshDir()
+							files := cl.files()
+							var args []string
+							for _, f := range files {
+								os.WriteFile(f.Name, []byte(f.Content), 0o644)
+								args = append(args, "-i", f.Name)
+							}
+							ref := Tool("1.2.3", "1.2.3 unknown", append(append([]string{}, args...), "-o", "ref.go")...)
+							want, _ := os.ReadFile("ref.go")
+							a := append(append([]string{"build"}, args...), "-o", "out.go")
+							if quiet {
+								a = append(a, "--quiet")
+							}
+							cmd := exec.Command(filepath.Join(w.Shared, "gontainer"), a...)
+							cmd.Dir = dir
+							cmd.Env = []string{"HOME=/nonexistent", "PATH=/usr/bin:/bin"}
+							if how == "/dev/full" {
+								f, err := os.OpenFile("/dev/full", os.O_WRONLY, 0)
+								if err != nil {
+									return
+								}
+								defer f.Close()
+								cmd.Stdout, cmd.Stderr = f, f
+							} else {
+								f, _ := os.CreateTemp(dir, "closed")
+								f.Close()
+								cmd.Stdout, cmd.Stderr = f, f // a closed descriptor
+							}
+							err := cmd.Run()
+							code := 0
+							if ee, ok := err.(*exec.ExitError); ok {
+								code = ee.ExitCode()
+							} else if err != nil {
+								return // could not even be started this way
+							}
+							got, rerr := os.ReadFile(filepath.Join(dir, "out.go"))
+							c.Count("binary_runs")
+							c.Distinct("nontrivial", c.ID)
+							if code == 0 && (rerr != nil || !ref.OK() || stripVersionLine(string(got)) != stripVersionLine(string(want))) {
+								c.Violation("exit0-without-complete-output:stdout-unwritable", fmt.Sprintf("stdout %s, quiet=%v: exit status 0 but the output file is missing or incomplete (%v)", how, quiet, rerr), FilesMap(files), nil)
 							}
 						})
 					}
